@@ -344,7 +344,14 @@ impl<'a> Gen<'a> {
                 G::Fail
             }
         } else if roll < 55 {
-            let n = 2 + self.w.below(2);
+            // 1..5 clauses: 2 and 3 are the common case, 1, 4 and 5 the corners
+            let n = match self.w.below(10) {
+                0 => 1,
+                1 | 2 => 4,
+                3 => 5,
+                4 | 5 | 6 => 3,
+                _ => 2,
+            };
             let cs = (0..n)
                 .map(|_| {
                     let k = self.width().min(2);
